@@ -331,7 +331,16 @@ func resp3To2(val3 respValue) (value respValue) {
 	switch v := val3.data.(type) {
 	case respSimpleString, respErrorString, respInt, respBulkString:
 		value.data = v
-	case respDouble, respBool, respBigNumber, respVerbatimString:
+	case respVerbatimString:
+		// the text may span lines (INFO, CLIENT LIST): only a bulk string can carry it
+		value.data = respBulkString(v.text)
+	case respBool:
+		if v {
+			value.data = respInt(1)
+		} else {
+			value.data = respInt(0)
+		}
+	case respDouble, respBigNumber:
 		value.data = respSimpleString(fmt.Sprintf("%s", v))
 	case respBlobError:
 		value.data = respErrorString(v.String())
